@@ -38,6 +38,7 @@ type Failure struct {
 
 type PathState struct {
 	cellChoice map[cellKey]int // regexp byte-cell chosen for a symbolic byte on this path
+	syncMaps map[*Value][][2]Value // sync.Map contents of this path
 	pools map[*Value][]Value // sync.Pool free lists of this path
 	loopBound int // harness-declared bound on the iterations of any one loop activation (0 = none)
 	prefix    []Decision
